@@ -211,6 +211,37 @@ def call_sites(model, R):
                 R.unknown('DIRECTION', func, call, f'{name}: seeds', src(v)[:80])
 
 
+def overrides(model, R):
+    """A subclass of Concept that overrides upset()/downset(): decided when it is one of the recognised shortcuts, else not judged."""
+    from .common import subclass_overrides, concept_cls
+    cls = concept_cls(model)
+    for sub, name, target in subclass_overrides(model, cls, ['upset', 'downset']):
+        slot = f'{sub.name}.{name} (override)'
+        if not hasattr(target, 'node'):
+            R.unknown('DIRECTION', f'{sub.key}.{name}', sub.node, slot, 'rebinding that is not a method definition')
+            continue
+        rets = [n for n in walk(target.body) if isinstance(n, ast.Return) and n.value is not None]
+        if len(rets) != 1:
+            R.unknown('DIRECTION', target, target.node, slot, f'{len(rets)} returns')
+            continue
+        v = Env(target).expand(rets[0].value)
+        inner = v
+        wrappers = []
+        while isinstance(inner, ast.Call) and isinstance(inner.func, ast.Name) and inner.func.id in ('iter', 'reversed', 'list', 'tuple') and len(inner.args) == 1:
+            wrappers.append(inner.func.id)
+            inner = inner.args[0]
+        whole = chain(inner) in (['self', 'lattice', '_concepts'], ['self', 'lattice'])
+        if isinstance(v, ast.Call) and (chain(v.func) or [''])[-1] == 'iterunion':
+            R.unknown('DIRECTION', target, rets[0], slot, 'an iterunion call in an override: not compared')
+        elif whole and sub.name == 'Infimum' and name == 'upset' and 'reversed' not in wrappers:
+            R.ok('DIRECTION', target, rets[0], slot, found='the whole lattice in index order (everything is above the bottom)')
+        elif whole and sub.name == 'Supremum' and name == 'downset':
+            R.bad('DIRECTION', target, rets[0], slot, 'all concepts in increasing dindex (long-lexicographic) order',
+                  src(rets[0].value) + ': the member list is in shortlex order - reversed shortlex is not longlex (ties within one size run the other way)')
+        else:
+            R.unknown('DIRECTION', target, rets[0], slot, src(rets[0].value)[:80])
+
+
 def maximal_rules(model, R):
     func = model.func('tools.maximal')
     p_it, p_cmp = func.params[0], func.params[1]
@@ -299,4 +330,5 @@ def run(model, R):
     R.guard('TRAVERSAL', None, 'iterunion', iterunion_template, model, R)
     R.guard('DIRECTION', None, 'call sites', call_sites, model, R)
     R.guard('MAXIMAL', None, 'tools.maximal', maximal_rules, model, R)
+    R.guard('DIRECTION', None, 'overrides', overrides, model, R)
     return __doc__.strip()
